@@ -410,3 +410,32 @@ def shrink(c):
             if c["op"] == "c18.approx":
                 nl = 1 if len(na) <= REF_MAX_M else 0
             yield dict(c, payload=[na, nr, nm, nl])
+
+# ------------------------------------------------------------------------------------------------ known-finding predicates
+def bf_sound_but_not_minimum(c, r, mres, failure):
+    """The brute force answered SOUNDLY but INCOMPLETELY, outside the region of the repaired cap defect (07cd506):
+    every answer is None or a partition accepted by the verified checker with at most k axes; some answer is None
+    although optimum <= k, or has more axes than the optimum; and optimum < ceil(m/2) (when the optimum equals
+    ceil(m/2) a wrong None is the cap defect, which must stay a violation).  Evaluated from the model's answers."""
+    if c["op"] != "c18.bf" or failure.get("kind") != "mismatch":
+        return False
+    if not (isinstance(r, list) and r[0] == 0) or not mres or not isinstance(mres[0], list):
+        return False
+    mn, oks = mres[0]
+    m = len(c["payload"][0])
+    if mn >= (m + 1) // 2:
+        return False
+    seen = []
+    for k, opt in r[1]:
+        if opt and opt[0] not in seen:
+            seen.append(opt[0])
+    for (k, opt), okk in zip(r[1], oks):
+        if opt:
+            if mres[1 + seen.index(opt[0])] != 1 or len(opt[0]) > k:
+                return False
+        elif mn > k and okk != 1:
+            return False
+    return any(o != 1 for o in oks)
+
+
+PREDICATES = {"bf_sound_but_not_minimum": bf_sound_but_not_minimum}
